@@ -6,7 +6,7 @@ WT=$(mktemp -d /tmp/runbenign.XXXXXX); rmdir $WT
 git -C /repo worktree add -q --detach $WT HEAD || exit 9
 trap 'git -C /repo worktree remove --force $WT >/dev/null 2>&1; rm -f $WT.log' EXIT
 (cd $WT && (git apply $P 2>/dev/null || git apply --3way $P 2>/dev/null)) || { echo "$(basename $(dirname $P))/$(basename $P): APPLY FAILED"; exit 3; }
-LISPCHECK_STRICT=1 /verif/bin/lispcheck -prop all -repo $WT -evidence-dir "" > $WT.log 2>&1; rc=$?
+LISPCHECK_STRICT=1 ${LISPCHECK:-/verif/bin/lispcheck} -prop all -repo $WT -evidence-dir "" > $WT.log 2>&1; rc=$?
 bad=$(grep -o "^VIOLATION property=C[0-9]*\|^UNDECIDED property=C[0-9]*" $WT.log | sed 's/property=//' | sort -u | tr '\n' ' ')
 if [ $rc -ne 0 ]; then grep "violated:\|UNDECIDED\|undecided:" $WT.log | sed "s#$WT/##g" | cut -c1-260 | head -${NLINES:-8}; fi
 echo "$(basename $(dirname $P))/$(basename $P): rc=$rc ${bad:-all checks pass}"
